@@ -4,7 +4,7 @@
 
 def alphanumeric(role):
     i = len(role)
-    while i > 0 and role[i - 1].isdigit():
+    while i > 0 and role[i - 1] in '0123456789':       # decimal digits only: '²' or '₂' are letters of the name
         i -= 1
     if i < len(role) and i > 0:
         return (role[:i], int(role[i:]))
